@@ -27,6 +27,11 @@ def fits_selector(pfn, selector):
     if not check_element(selector.element, fname, fcat):
         return False
 
+    if fvars is None:
+        # The function is not instrumented (anymore): another thread may
+        # have deactivated the last probe on it since this call started
+        return None
+
     capmap = {}
 
     for cap in selector.captures:
@@ -109,7 +114,7 @@ class HandlerCollection:
                 # Check if the selector matches this fn call
                 capmap = fits_selector(fn, selector)
                 _selector_fit_cache[cachekey] = capmap
-            if capmap is not False:
+            if capmap is not False and capmap is not None:
                 # A "template" is just the original accumulator created by
                 # the user. We will fork it immediately so that we do not
                 # directly use it (a fork never has the template flag).
